@@ -62,6 +62,16 @@ Theorem C02_fair_stall_refuted :
   ~ mbox_ok fair1.
 Proof. exact fair_stall_refuted. Qed.
 
+(* BoundedMailbox after Dispose() with messages left breaks the contract (IsEmpty()==false, Dequeue()==nil for
+   ever): a turn on the stopped actor reclaims for ever.  Replayed on real actors by the harness. *)
+Theorem C02_disposed_bounded_refuted :
+  mb_pend (bounded_disposable false) disposed_witness = [] /\
+  mb_empty (bounded_disposable false) disposed_witness = false /\
+  mb_deq (bounded_disposable false) disposed_witness = (None, disposed_witness) /\
+  ~ mbox_ok (bounded_disposable false) /\
+  mb_empty (bounded_disposable true) disposed_witness = true.
+Proof. exact disposed_bounded_refuted. Qed.
+
 Print Assumptions C02_contract_instance.
 Print Assumptions C02_no_duplicate.
 Print Assumptions C02_handled_was_accepted.
@@ -71,3 +81,4 @@ Print Assumptions C02_wake_invariant.
 Print Assumptions C02_no_lost_wakeup.
 Print Assumptions C02_progress_partial.
 Print Assumptions C02_fair_stall_refuted.
+Print Assumptions C02_disposed_bounded_refuted.
